@@ -188,6 +188,7 @@ impl SatSolver for Recording {
         // watchdog: a query that keeps calling the oracle is cut (reported as a panic of the query)
         if k >= SAT_CALL_CAP {
             panic!("sat-call-cap-exceeded: more than {} SAT calls in one case", SAT_CALL_CAP);
+        }
         if k >= SOLVE_BUDGET.load(std::sync::atomic::Ordering::Relaxed) {
             // a run-away enumeration loop in the code under test: reported as a panic of the call
             panic!("solve budget of the harness exceeded");
